@@ -3,7 +3,7 @@
 
    File system: directories D1, D2 and the current directory CW; in each, the command name `n`
    is absent, an executable file, a non-executable file or a directory of that name.
-   $PATH is a sequence of entries: "D1", "D2", "L" (a symlink to D1), "M" (a missing directory),
+   $PATH is a sequence of entries: "D1", "D2", "L" (a symlink to D1 that can be re-pointed to D2), "M" (a missing directory),
    "E" (the empty entry = current directory in POSIX).
    The commands cache, as implemented: per directory a listing of executable names taken when the
    directory's mtime last differed (`listed`, `fresh` = no create/delete since then - chmod does
@@ -15,15 +15,15 @@ CONSTANTS MaxPath, Deviations
 
 DevNames == {"Dev_PathEditUnnoticed", "Dev_ChmodUnnoticed"}
 
-VARIABLES fs, path, listed, fresh, cmds, act, res
-vars == <<fs, path, listed, fresh, cmds, act, res>>
-view == <<fs, path, listed, fresh, cmds>>
+VARIABLES fs, path, link, listed, fresh, cmds, act, res
+vars == <<fs, path, link, listed, fresh, cmds, act, res>>
+view == <<fs, path, link, listed, fresh, cmds>>
 
 Dirs == {"D1", "D2", "CW"}
 Entries == {"D1", "D2", "L", "M", "E"}
 Kinds == {"absent", "exec", "nonexec", "dirn"}
 \* the real directory an entry of $PATH denotes ("" = none)
-Real(e) == CASE e \in {"D1", "L"} -> "D1" [] e = "D2" -> "D2" [] e = "E" -> "CW" [] OTHER -> ""
+Real(e) == CASE e = "D1" -> "D1" [] e = "D2" -> "D2" [] e = "L" -> link [] e = "E" -> "CW" [] OTHER -> ""
 
 \* ---------------------------- truth: the POSIX search -------------------------------------
 RECURSIVE Which(_)
@@ -46,21 +46,25 @@ NoRes == [loc |-> "", cached |-> "", inn |-> FALSE, listing |-> FALSE, dev |-> "
 \* create / delete: the directory's mtime changes
 Create(d, k) == /\ fs[d] = "absent" /\ k \in Kinds \ {"absent"}
                 /\ fs' = [fs EXCEPT ![d] = k] /\ fresh' = [fresh EXCEPT ![d] = FALSE]
-                /\ act' = Lab("create", d, k) /\ res' = NoRes /\ UNCHANGED <<path, listed, cmds>>
+                /\ act' = Lab("create", d, k) /\ res' = NoRes /\ UNCHANGED <<path, link, listed, cmds>>
 Delete(d) == /\ fs[d] # "absent"
              /\ fs' = [fs EXCEPT ![d] = "absent"] /\ fresh' = [fresh EXCEPT ![d] = FALSE]
-             /\ act' = Lab("delete", d, "") /\ res' = NoRes /\ UNCHANGED <<path, listed, cmds>>
+             /\ act' = Lab("delete", d, "") /\ res' = NoRes /\ UNCHANGED <<path, link, listed, cmds>>
 \* chmod +x / -x: the directory's mtime does not change
 Chmod(d) == /\ fs[d] \in {"exec", "nonexec"}
             /\ fs' = [fs EXCEPT ![d] = IF @ = "exec" THEN "nonexec" ELSE "exec"]
-            /\ act' = Lab("chmod", d, "") /\ res' = NoRes /\ UNCHANGED <<path, listed, fresh, cmds>>
+            /\ act' = Lab("chmod", d, "") /\ res' = NoRes /\ UNCHANGED <<path, link, listed, fresh, cmds>>
 SetPath(p) == /\ p # path /\ path' = p
-              /\ act' = Lab("setpath", "", "") /\ res' = NoRes /\ UNCHANGED <<fs, listed, fresh, cmds>>
+              /\ act' = Lab("setpath", "", "") /\ res' = NoRes /\ UNCHANGED <<fs, link, listed, fresh, cmds>>
+
+\* the symlinked $PATH entry is re-pointed (`current -> v2`); no directory of the model changes
+Relink == /\ link' = IF link = "D1" THEN "D2" ELSE "D1"
+          /\ act' = Lab("relink", "", "") /\ res' = NoRes /\ UNCHANGED <<fs, path, listed, fresh, cmds>>
 
 \* ---------------------------- lookups ---------------------------------------------------------
 \* the uncached ordered scan (locate_executable, what a spawn uses)
 Locate == /\ act' = Lab("locate", "", "") /\ res' = [NoRes EXCEPT !.loc = PosixWhich]
-          /\ UNCHANGED <<fs, path, listed, fresh, cmds>>
+          /\ UNCHANGED <<fs, path, link, listed, fresh, cmds>>
 
 \* update_cache as implemented: refresh stale listings of the searched directories; rebuild the
 \* merged map only if something was refreshed (or, conformant, if $PATH itself changed)
@@ -74,7 +78,7 @@ CacheQuery ==
       upd == [d \in Dirs |-> IF d \in Refreshed THEN TRUE ELSE fresh[d]]
   IN
   /\ act' = Lab("query", "", "")
-  /\ UNCHANGED <<fs, path>>
+  /\ UNCHANGED <<fs, path, link>>
   /\ \/ \* the listings are accurate: every view of the cache agrees with the file system
         /\ c = PosixWhich
         /\ listed' = NewListed /\ fresh' = upd /\ cmds' = c
@@ -99,14 +103,14 @@ CacheQuery ==
 \* (an empty $PATH is left out: POSIX leaves its meaning to the implementation)
 Paths == UNION {[1..n -> Entries] : n \in 1..MaxPath}
 
-Init == /\ fs = [d \in Dirs |-> "absent"] /\ path \in Paths
+Init == /\ fs = [d \in Dirs |-> "absent"] /\ path \in Paths /\ link = "D1"
         /\ listed = [d \in Dirs |-> "unlisted"] /\ fresh = [d \in Dirs |-> FALSE] /\ cmds = "none"
         /\ act = Lab("init", "", "") /\ res = NoRes
 
 Next == \/ \E d \in Dirs, k \in Kinds : Create(d, k)
         \/ \E d \in Dirs : Delete(d) \/ Chmod(d)
         \/ \E p \in Paths : SetPath(p)
-        \/ Locate \/ CacheQuery
+        \/ Locate \/ CacheQuery \/ Relink
 
 Spec == Init /\ [][Next]_vars
 
